@@ -151,7 +151,9 @@ func VerifC17_Signer() {
 		cl.err = errors.New("acme error")
 	}
 	metrics := &zzMetrics{}
-	s := &signer{logger: zzLogger{}, cache: cache, metrics: metrics, client: cl, expiring: expiring}
+	s := NewSigner(zzLogger{}, cache, metrics).(*signer)
+	s.AcmeConfig(expiring)
+	s.client = cl
 	item := "default/tls1,chain"
 	for _, d := range cc.domains {
 		item += "," + d
